@@ -91,7 +91,7 @@ func projectSchedule(s *Schedule, k uint64, cb, ct int) (*Schedule, [][]int, boo
 				if tx.Msg.ToKind == "actor" {
 					keep = true
 				} else if tx.Msg.ToAuction == k {
-				// also before the auction exists: an escrow address is a function of the id
+					// also before the auction exists: an escrow address is a function of the id
 					tx.Msg.ToAuction = 0
 					keep = true
 				}
